@@ -425,4 +425,256 @@ theorem bnd_trackInit (h : ListLike o V abs) {s0 : σ} {L : List Sample} (hi : I
 
 end leaf
 
+/-! ### dedupSeriesIterator over two iterators that track lists up to `M` -/
+
+/-- status of a side of the node: tracking `l`, beyond `M`, or dead (`ValNone` was returned) -/
+def ChildSt {γ : Type} (o : Ops γ) (T : γ → List Sample → Prop) (B : γ → Prop) (c : γ) (av : Bool)
+    (l : List Sample) : Prop :=
+  (l ≠ [] ∧ av = true ∧ T c l) ∨ (l = [] ∧ av = true ∧ B c) ∨ (l = [] ∧ av = false ∧ o.bad c = false)
+
+def remOf {γ : Type} (rem : γ → Nat) (c : γ) (av : Bool) : Nat := if av then rem c else 0
+
+section node
+variable {α β : Type} {oa : Ops α} {ob : Ops β} {M : Int}
+  {Ta : α → List Sample → Prop} {Ba : α → Prop} {ra : α → Nat}
+  {Tb : β → List Sample → Prop} {Bb : β → Prop} {rb : β → Nat}
+
+theorem ChildSt.nbad {γ : Type} {o : Ops γ} {T : γ → List Sample → Prop} {B : γ → Prop} {r : γ → Nat}
+    (h : TrackM o M T B r) {c : γ} {av : Bool} {l : List Sample} (hc : ChildSt o T B c av l) :
+    o.bad c = false := by
+  rcases hc with ⟨_, _, hT⟩ | ⟨_, _, hB⟩ | ⟨_, _, hb⟩
+  · exact h.tBad _ _ hT
+  · exact h.bBad _ hB
+  · exact hb
+
+theorem ChildSt.valid {γ : Type} {o : Ops γ} {T : γ → List Sample → Prop} {B : γ → Prop}
+    {c : γ} {l : List Sample} (hc : ChildSt o T B c true l) : (∃ L, T c L) ∨ B c := by
+  rcases hc with ⟨_, _, hT⟩ | ⟨_, _, hB⟩ | ⟨_, hf, _⟩
+  · exact Or.inl ⟨_, hT⟩
+  · exact Or.inr hB
+  · cases hf
+
+/-- statuses of both sides, no panic so far -/
+def NodeSt (oa : Ops α) (ob : Ops β) (Ta : α → List Sample → Prop) (Ba : α → Prop)
+    (Tb : β → List Sample → Prop) (Bb : β → Prop) (s : Node α β) (la lb : List Sample) : Prop :=
+  s.bad = false ∧ ChildSt oa Ta Ba s.a s.aval la ∧ ChildSt ob Tb Bb s.b s.bval lb
+
+/-- the node follows `L` -/
+def nodeT (oa : Ops α) (ob : Ops β) (Ta : α → List Sample → Prop) (Ba : α → Prop)
+    (Tb : β → List Sample → Prop) (Bb : β → Prop) (s : Node α β) (L : List Sample) : Prop :=
+  ∃ la lb, NodeSt oa ob Ta Ba Tb Bb s la lb ∧ s.lastIsA = s.useA ∧
+    (if s.lastIsA then s.penA = 0 else s.penB = 0) ∧
+    ∃ cur, (if s.lastIsA then la else lb).head? = some cur ∧ cur.t = s.lastT ∧
+      L = cur :: pm2 s.lastT (dropLt (s.lastT + 1 + s.penA) la) (dropLt (s.lastT + 1 + s.penB) lb)
+
+/-- the node stands on a sample beyond `M`; no side tracks anything any more -/
+def nodeB (oa : Ops α) (ob : Ops β) (Ta : α → List Sample → Prop) (Ba : α → Prop)
+    (Tb : β → List Sample → Prop) (Bb : β → Prop) (s : Node α β) : Prop :=
+  NodeSt oa ob Ta Ba Tb Bb s [] [] ∧ s.lastIsA = s.useA ∧
+    (if s.lastIsA then s.aval = true ∧ Ba s.a ∧ oa.atT s.a = some s.lastT ∧ s.penA = 0
+     else s.bval = true ∧ Bb s.b ∧ ob.atT s.b = some s.lastT ∧ s.penB = 0)
+
+def nodeRem (ra : α → Nat) (rb : β → Nat) (s : Node α β) : Nat :=
+  remOf ra s.a s.aval + remOf rb s.b s.bval
+
+theorem pm2_eq_nil {lastT : Int} {la lb : List Sample} : pm2 lastT la lb = [] ↔ la = [] ∧ lb = [] := by
+  cases la <;> cases lb
+  · simp [pm2]
+  · rw [pm2]; simp
+  · rw [pm2]; simp
+  · rw [pm2]; split <;> simp
+
+/-- one `Seek` of a side at the start of `Next` -/
+theorem stepA_track (ha : TrackM oa M Ta Ba ra) {s : Node α β} {la : List Sample}
+    (hc : ChildSt oa Ta Ba s.a s.aval la) :
+    ChildSt oa Ta Ba (stepA oa s).1 (stepA oa s).2 (dropLt (s.lastT + 1 + s.penA) la) := by
+  unfold stepA
+  cases hav : s.aval with
+  | false =>
+    rw [hav] at hc
+    rcases hc with ⟨_, hf, _⟩ | ⟨_, hf, _⟩ | ⟨hl, _, hb⟩
+    · cases hf
+    · cases hf
+    · simp only [Bool.false_eq_true, if_false]
+      exact Or.inr (Or.inr ⟨by rw [hl]; rfl, rfl, hb⟩)
+  | true =>
+    rw [hav] at hc
+    simp only [if_true]
+    rcases hc with ⟨_, _, hT⟩ | ⟨hl, _, hB⟩ | ⟨_, hf, _⟩
+    · by_cases hD : dropLt (s.lastT + 1 + s.penA) la = []
+      · rw [hD]
+        rcases ha.tSeekB _ _ _ hT hD with h | h
+        · exact Or.inr (Or.inr ⟨rfl, h, ha.seekBad _ _ (Or.inl ⟨_, hT⟩)⟩)
+        · cases hok : (oa.seek (s.lastT + 1 + s.penA) s.a).2 with
+          | true => exact Or.inr (Or.inl ⟨rfl, rfl, h⟩)
+          | false => exact Or.inr (Or.inr ⟨rfl, rfl, ha.seekBad _ _ (Or.inl ⟨_, hT⟩)⟩)
+      · obtain ⟨h1, h2⟩ := ha.tSeekT _ _ _ hT hD
+        exact Or.inl ⟨hD, h1, h2⟩
+    · rw [hl]
+      simp only [dropLt_nil]
+      rcases ha.bSeek _ (s.lastT + 1 + s.penA) hB with h | h
+      · exact Or.inr (Or.inr ⟨rfl, h, ha.seekBad _ _ (Or.inr hB)⟩)
+      · cases hok : (oa.seek (s.lastT + 1 + s.penA) s.a).2 with
+        | true => exact Or.inr (Or.inl ⟨rfl, rfl, h⟩)
+        | false => exact Or.inr (Or.inr ⟨rfl, rfl, ha.seekBad _ _ (Or.inr hB)⟩)
+    · cases hf
+
+theorem stepB_track (hb : TrackM ob M Tb Bb rb) {s : Node α β} {lb : List Sample}
+    (hc : ChildSt ob Tb Bb s.b s.bval lb) :
+    ChildSt ob Tb Bb (stepB ob s).1 (stepB ob s).2 (dropLt (s.lastT + 1 + s.penB) lb) := by
+  unfold stepB
+  cases hbv : s.bval with
+  | false =>
+    rw [hbv] at hc
+    rcases hc with ⟨_, hf, _⟩ | ⟨_, hf, _⟩ | ⟨hl, _, hbd⟩
+    · cases hf
+    · cases hf
+    · simp only [Bool.false_eq_true, if_false]
+      exact Or.inr (Or.inr ⟨by rw [hl]; rfl, rfl, hbd⟩)
+  | true =>
+    rw [hbv] at hc
+    simp only [if_true]
+    rcases hc with ⟨_, _, hT⟩ | ⟨hl, _, hB⟩ | ⟨_, hf, _⟩
+    · by_cases hD : dropLt (s.lastT + 1 + s.penB) lb = []
+      · rw [hD]
+        rcases hb.tSeekB _ _ _ hT hD with h | h
+        · exact Or.inr (Or.inr ⟨rfl, h, hb.seekBad _ _ (Or.inl ⟨_, hT⟩)⟩)
+        · cases hok : (ob.seek (s.lastT + 1 + s.penB) s.b).2 with
+          | true => exact Or.inr (Or.inl ⟨rfl, rfl, h⟩)
+          | false => exact Or.inr (Or.inr ⟨rfl, rfl, hb.seekBad _ _ (Or.inl ⟨_, hT⟩)⟩)
+      · obtain ⟨h1, h2⟩ := hb.tSeekT _ _ _ hT hD
+        exact Or.inl ⟨hD, h1, h2⟩
+    · rw [hl]
+      simp only [dropLt_nil]
+      rcases hb.bSeek _ (s.lastT + 1 + s.penB) hB with h | h
+      · exact Or.inr (Or.inr ⟨rfl, h, hb.seekBad _ _ (Or.inr hB)⟩)
+      · cases hok : (ob.seek (s.lastT + 1 + s.penB) s.b).2 with
+        | true => exact Or.inr (Or.inl ⟨rfl, rfl, h⟩)
+        | false => exact Or.inr (Or.inr ⟨rfl, rfl, hb.seekBad _ _ (Or.inr hB)⟩)
+    · cases hf
+
+/-- picking the side to emit, from the statuses of the two (already sought) sides -/
+theorem nodeChoose_track (ha : TrackM oa M Ta Ba ra) (hb : TrackM ob M Tb Bb rb) (s : Node α β)
+    {la lb : List Sample} (hst : NodeSt oa ob Ta Ba Tb Bb s la lb) :
+    (pm2 s.lastT la lb ≠ [] →
+      (nodeChoose oa ob s).2 = true ∧ nodeT oa ob Ta Ba Tb Bb (nodeChoose oa ob s).1 (pm2 s.lastT la lb)) ∧
+    (pm2 s.lastT la lb = [] →
+      ((nodeChoose oa ob s).2 = false ∧ NodeSt oa ob Ta Ba Tb Bb (nodeChoose oa ob s).1 [] []) ∨
+      ((nodeChoose oa ob s).2 = true ∧ nodeB oa ob Ta Ba Tb Bb (nodeChoose oa ob s).1)) := by
+  obtain ⟨hnb, hca, hcb⟩ := hst
+  unfold nodeChoose
+  rcases hca with ⟨hla, hav, hTa⟩ | ⟨hla, hav, hBa⟩ | ⟨hla, hav, hda⟩
+  · -- a tracks x :: ta
+    obtain ⟨x, ta, rfl⟩ : ∃ x ta, la = x :: ta := by
+      cases la with
+      | nil => exact absurd rfl hla
+      | cons x ta => exact ⟨x, ta, rfl⟩
+    have hatA : oa.atT s.a = some x.t := by rw [ha.tAtT _ _ hTa]; rfl
+    have hxM : x.t ≤ M := ha.tLe _ _ hTa x (by simp)
+    rcases hcb with ⟨hlb, hbv, hTb⟩ | ⟨hlb, hbv, hBb⟩ | ⟨hlb, hbv, hdb⟩
+    · -- b tracks y :: tb
+      obtain ⟨y, tb, rfl⟩ : ∃ y tb, lb = y :: tb := by
+        cases lb with
+        | nil => exact absurd rfl hlb
+        | cons y tb => exact ⟨y, tb, rfl⟩
+      have hatB : ob.atT s.b = some y.t := by rw [hb.tAtT _ _ hTb]; rfl
+      simp only [hav, hbv, Bool.not_true, Bool.false_eq_true, if_false, hatA, hatB]
+      refine ⟨fun _ => ?_, fun he => by rw [pm2] at he; split at he <;> simp at he⟩
+      by_cases hle : x.t ≤ y.t
+      · simp only [hle, if_true]
+        refine ⟨(by first | rfl | trivial), x :: ta, y :: tb, ⟨hnb, Or.inl ⟨by simp, (by first | rfl | assumption), hTa⟩, Or.inl ⟨by simp, (by first | rfl | assumption), hTb⟩⟩, rfl, (by first | rfl | trivial),
+          x, rfl, rfl, ?_⟩
+        rw [pm2]
+        simp only [hle, if_true, Int.add_zero]
+        rw [dropLt_cons_lt (show x.t < x.t + 1 by omega)]
+        rfl
+      · simp only [hle, if_false]
+        refine ⟨(by first | rfl | trivial), x :: ta, y :: tb, ⟨hnb, Or.inl ⟨by simp, (by first | rfl | assumption), hTa⟩, Or.inl ⟨by simp, (by first | rfl | assumption), hTb⟩⟩, rfl, (by first | rfl | trivial),
+          y, rfl, rfl, ?_⟩
+        rw [pm2]
+        simp only [hle, if_false, Int.add_zero]
+        rw [dropLt_cons_lt (show y.t < y.t + 1 by omega)]
+        rfl
+    · -- b beyond
+      subst hlb
+      obtain ⟨e, _, hatB, heM⟩ := hb.bAt _ hBb
+      have hle : x.t ≤ e.t := by omega
+      simp only [hav, hbv, Bool.not_true, Bool.false_eq_true, if_false, hatA, hatB, hle, if_true]
+      refine ⟨fun _ => ?_, fun he => by rw [pm2] at he; simp at he⟩
+      refine ⟨(by first | rfl | trivial), x :: ta, [], ⟨hnb, Or.inl ⟨by simp, (by first | rfl | assumption), hTa⟩, Or.inr (Or.inl ⟨rfl, (by first | rfl | assumption), hBb⟩)⟩, rfl, (by first | rfl | trivial),
+        x, rfl, rfl, ?_⟩
+      rw [pm2]
+      simp only [Int.add_zero, dropLt_nil]
+      rw [dropLt_cons_lt (show x.t < x.t + 1 by omega)]
+    · -- b dead
+      subst hlb
+      simp only [hav, hbv, Bool.not_true, Bool.not_false, Bool.false_eq_true, if_false, if_true, hatA]
+      refine ⟨fun _ => ?_, fun he => by rw [pm2] at he; simp at he⟩
+      refine ⟨(by first | rfl | trivial), x :: ta, [], ⟨hnb, Or.inl ⟨by simp, (by first | rfl | assumption), hTa⟩, Or.inr (Or.inr ⟨rfl, (by first | rfl | assumption), hdb⟩)⟩, rfl, (by first | rfl | trivial),
+        x, rfl, rfl, ?_⟩
+      rw [pm2]
+      simp only [Int.add_zero, dropLt_nil]
+      rw [dropLt_cons_lt (show x.t < x.t + 1 by omega)]
+  · -- a beyond
+    subst hla
+    obtain ⟨e, _, hatA, heM⟩ := ha.bAt _ hBa
+    rcases hcb with ⟨hlb, hbv, hTb⟩ | ⟨hlb, hbv, hBb⟩ | ⟨hlb, hbv, hdb⟩
+    · obtain ⟨y, tb, rfl⟩ : ∃ y tb, lb = y :: tb := by
+        cases lb with
+        | nil => exact absurd rfl hlb
+        | cons y tb => exact ⟨y, tb, rfl⟩
+      have hatB : ob.atT s.b = some y.t := by rw [hb.tAtT _ _ hTb]; rfl
+      have hyM : y.t ≤ M := hb.tLe _ _ hTb y (by simp)
+      have hle : ¬ e.t ≤ y.t := by omega
+      simp only [hav, hbv, Bool.not_true, Bool.false_eq_true, if_false, hatA, hatB, hle]
+      refine ⟨fun _ => ?_, fun he => by rw [pm2] at he; simp at he⟩
+      refine ⟨(by first | rfl | trivial), [], y :: tb, ⟨hnb, Or.inr (Or.inl ⟨rfl, (by first | rfl | assumption), hBa⟩), Or.inl ⟨by simp, (by first | rfl | assumption), hTb⟩⟩, rfl, rfl,
+        y, rfl, rfl, ?_⟩
+      rw [pm2]
+      simp only [Int.add_zero, dropLt_nil]
+      rw [dropLt_cons_lt (show y.t < y.t + 1 by omega)]
+    · subst hlb
+      obtain ⟨e2, _, hatB, heM2⟩ := hb.bAt _ hBb
+      simp only [hav, hbv, Bool.not_true, Bool.false_eq_true, if_false, hatA, hatB]
+      refine ⟨fun hne => absurd (by simp [pm2]) hne, fun _ => Or.inr ?_⟩
+      by_cases hle : e.t ≤ e2.t
+      · simp only [hle, if_true]
+        exact ⟨(by first | rfl | trivial), ⟨hnb, Or.inr (Or.inl ⟨rfl, (by first | rfl | assumption), hBa⟩), Or.inr (Or.inl ⟨rfl, (by first | rfl | assumption), hBb⟩)⟩, rfl,
+          by simp [hav, hBa, hatA]⟩
+      · simp only [hle, if_false]
+        exact ⟨(by first | rfl | trivial), ⟨hnb, Or.inr (Or.inl ⟨rfl, (by first | rfl | assumption), hBa⟩), Or.inr (Or.inl ⟨rfl, (by first | rfl | assumption), hBb⟩)⟩, rfl,
+          by simp [hbv, hBb, hatB]⟩
+    · subst hlb
+      simp only [hav, hbv, Bool.not_true, Bool.not_false, Bool.false_eq_true, if_false, if_true, hatA]
+      refine ⟨fun hne => absurd (by simp [pm2]) hne, fun _ => Or.inr ?_⟩
+      exact ⟨(by first | rfl | trivial), ⟨hnb, Or.inr (Or.inl ⟨rfl, (by first | rfl | assumption), hBa⟩), Or.inr (Or.inr ⟨rfl, (by first | rfl | assumption), hdb⟩)⟩, rfl,
+        by simp [hav, hBa, hatA]⟩
+  · -- a dead
+    subst hla
+    rcases hcb with ⟨hlb, hbv, hTb⟩ | ⟨hlb, hbv, hBb⟩ | ⟨hlb, hbv, hdb⟩
+    · obtain ⟨y, tb, rfl⟩ : ∃ y tb, lb = y :: tb := by
+        cases lb with
+        | nil => exact absurd rfl hlb
+        | cons y tb => exact ⟨y, tb, rfl⟩
+      have hatB : ob.atT s.b = some y.t := by rw [hb.tAtT _ _ hTb]; rfl
+      simp only [hav, hbv, Bool.not_false, if_true, hatB]
+      refine ⟨fun _ => ?_, fun he => by rw [pm2] at he; simp at he⟩
+      refine ⟨(by first | rfl | trivial), [], y :: tb, ⟨hnb, Or.inr (Or.inr ⟨rfl, (by first | rfl | assumption), hda⟩), Or.inl ⟨by simp, (by first | rfl | assumption), hTb⟩⟩, rfl, rfl,
+        y, rfl, rfl, ?_⟩
+      rw [pm2]
+      simp only [Int.add_zero, dropLt_nil]
+      rw [dropLt_cons_lt (show y.t < y.t + 1 by omega)]
+    · subst hlb
+      obtain ⟨e2, _, hatB, heM2⟩ := hb.bAt _ hBb
+      simp only [hav, hbv, Bool.not_false, if_true, hatB]
+      refine ⟨fun hne => absurd (by simp [pm2]) hne, fun _ => Or.inr ?_⟩
+      exact ⟨(by first | rfl | trivial), ⟨hnb, Or.inr (Or.inr ⟨rfl, (by first | rfl | assumption), hda⟩), Or.inr (Or.inl ⟨rfl, (by first | rfl | assumption), hBb⟩)⟩, rfl,
+        by simp [hbv, hBb, hatB]⟩
+    · subst hlb
+      simp only [hav, hbv, Bool.not_false, if_true, Bool.false_eq_true, if_false]
+      refine ⟨fun hne => absurd (by simp [pm2]) hne, fun _ => Or.inl ?_⟩
+      exact ⟨(by first | rfl | trivial), hnb, Or.inr (Or.inr ⟨rfl, (by first | rfl | assumption), hda⟩), Or.inr (Or.inr ⟨rfl, (by first | rfl | assumption), hdb⟩)⟩
+
+end node
+
 end Thanos.Dedup
